@@ -9,7 +9,9 @@
      "utc"      timestamps: the same instant to the microsecond, normalised to UTC
      "refused"  an error, and the record is NOT in the file
    and never anything else (C19: never written as a different value).
-   Dev: "NameOnlyMixedTest" -- a second descriptor is only refused when its NAME differs. *)
+   Dev: "NameOnlyMixedTest" -- a second descriptor is only refused when its NAME differs;
+        "StaleLastDescriptor" -- the mixed-type test is skipped for a record whose descriptor is the one seen last, and
+        "seen last" is updated before the test raises: the first foreign record is refused, the following ones are not. *)
 EXTENDS Naturals, Sequences, FiniteSets, TLC
 CONSTANTS Dev
 AvroKind(T) == CASE T \in {"varint", "filesize", "unix_file_mode"} -> "long"
@@ -34,12 +36,14 @@ Allowed(T, c) ==
           [] c = "beyond64" -> {"refused"}
           [] c = "nonutf8" -> {"refused", "same"}                                 \* text Avro cannot hold: refused, or carried faithfully
 \* a second record type in one file
-SecondDescriptor(sameName) == IF sameName /\ "NameOnlyMixedTest" \in Dev THEN "written-with-first-schema" ELSE "refused"
-VARIABLES ty, cl, second
-vars == <<ty, cl, second>>
-Init == ty \in Types /\ cl \in {c \in Classes : Applicable(ty, c)} /\ second \in {"none", "same-name", "other-name"}
+\* nth: the foreign record is the nth CONSECUTIVE record of that other type offered to the writer
+SecondDescriptor(sameName, n) == IF sameName /\ "NameOnlyMixedTest" \in Dev THEN "written-with-first-schema"
+                                 ELSE IF n > 1 /\ "StaleLastDescriptor" \in Dev THEN "written-with-first-schema" ELSE "refused"
+VARIABLES ty, cl, second, nth
+vars == <<ty, cl, second, nth>>
+Init == ty \in Types /\ cl \in {c \in Classes : Applicable(ty, c)} /\ second \in {"none", "same-name", "other-name"} /\ nth \in 1..3
 Next == UNCHANGED vars
 Spec == Init /\ [][Next]_vars
 NeverDifferentValue == Allowed(ty, cl) \subseteq {"same", "single", "utc", "refused"} /\ Allowed(ty, cl) # {}
-MixedRefused == second # "none" => SecondDescriptor(second = "same-name") = "refused"
+MixedRefused == second # "none" => SecondDescriptor(second = "same-name", nth) = "refused"
 =============================================================================
